@@ -63,6 +63,7 @@ static uint8_t* arena_bindup_thrift(carquet_arena_t* arena, thrift_decoder_t* de
     const uint8_t* data = thrift_read_binary(dec, &len);
     *out_len = len;
     if (!data || len == 0) return NULL;
+    if (!arena) return (uint8_t*)data;  /* no arena: reference the input buffer */
     return carquet_arena_memdup(arena, data, (size_t)len);
 }
 
@@ -730,8 +731,9 @@ carquet_status_t parquet_parse_page_header(
                             break;
                         case 5:
                             header->data_page_header.has_statistics = true;
-                            /* Skip statistics for now - arena needed */
-                            thrift_skip(&dec, ft);
+                            /* No arena here: min/max reference `data` */
+                            parse_statistics(&dec, NULL,
+                                &header->data_page_header.statistics);
                             break;
                         default:
                             thrift_skip(&dec, ft);
